@@ -123,6 +123,12 @@ func recovery(idx int64, r *rand.Rand) {
 		for i := 0; i < 25; i++ {
 			before := l.EstimatedLimit()
 			s := limgen.Sample{RTT: 1 + r.Int64N(1e6), InFlight: before + r.IntN(3)}
+			if r.IntN(3) == 0 {
+				// AIMD is purely loss based: a slow success (seconds, minutes, up to 2^62 ns) is still a success
+				s.RTT = int64(1) << uint(20+r.IntN(43))
+				s.RTT += r.Int64N(s.RTT)
+				rt.Count("aimd_healthy_samples_slower_than_a_millisecond", 1)
+			}
 			l.OnSample(0, s.RTT, s.InFlight, false)
 			hist = append(hist, s)
 			after := l.EstimatedLimit()
